@@ -495,4 +495,44 @@ def r15_6(chk, mod):
                    expected=f"{c}.split('\\n')", found=f"every line is rewritten by {fnname}() (a regex substitution that does not look at quotes): "
                    "text after ' #' inside a quoted value is dropped")
             return
+    # a regex substitution applied to every line directly:  [REGEX.sub(repl, line) for line in contents.split("\n")]
+    if a and a[0] == "comp":
+        el = a[2].as_atom()
+        f = el[1].as_atom() if el and el[0] == "call" and isinstance(el[1], P) else None
+        if f and f[0] == "attr" and f[2] == "sub" and f[1].as_atom() and f[1].as_atom()[0] == "name":
+            rname = f[1].as_atom()[1].split(".")[-1]
+            pat = None
+            for t in mod.tree.body:
+                if isinstance(t, ast.Assign) and isinstance(t.targets[0], ast.Name) and t.targets[0].id == rname and isinstance(t.value, ast.Call) \
+                        and getattr(t.value.func, "attr", None) == "compile" and t.value.args and isinstance(t.value.args[0], ast.Constant):
+                    pat = t.value.args[0].value
+            if pat is not None:
+                import re._parser as sre
+                tree = sre.parse(pat)
+
+                def lits(sub):
+                    out = set()
+                    for op, av in sub:
+                        opn = str(op)
+                        if opn == "LITERAL" or opn == "NOT_LITERAL":
+                            out.add(av)
+                        elif opn == "IN":
+                            out |= {x for o2, x in av if str(o2) == "LITERAL"}
+                        elif opn in ("MAX_REPEAT", "MIN_REPEAT", "POSSESSIVE_REPEAT"):
+                            out |= lits(av[2])
+                        elif opn == "SUBPATTERN":
+                            out |= lits(av[3])
+                        elif opn == "BRANCH":
+                            for b in av[1]:
+                                out |= lits(b)
+                        elif opn in ("ASSERT", "ASSERT_NOT"):
+                            out |= lits(av[1])
+                    return out
+                quote_aware = bool(lits(tree) & {34, 39})
+                anchored = len(tree) > 0 and str(tree[0][0]) == "AT" and "BEGINNING" in str(tree[0][1])
+                if not quote_aware and not anchored:
+                    chk.ob("R15.6", MOD, q, "content_lines are the lines of the contents, unchanged", False, node=st[0].node, fingerprint="raw-lines",
+                           expected=f"{c}.split('\\n')", found=f"every line is rewritten by {rname}.sub(...) with the pattern {pat!r}, which can match anywhere in a line and "
+                           "does not look at quotes: text inside a quoted value (and the tokens after it) is dropped")
+                    return
     raise AnalysisError(f"{q}: content_lines is neither the raw split of the contents nor a recognised per-line rewrite: {str(v)[:120]}")
